@@ -1,27 +1,47 @@
 ---------------------------- MODULE Gen_LeakPlugin ----------------------------
 (* Behaviour generation for C07: LeakPlugin's steps with a history variable recording the script
-   (step, phase, argument); every test that was begun is ended and the run closes with the final report. *)
+   (step, phase, arguments); every test that was begun is ended and the run closes with the final report.
+   Besides the arguments of the specification's steps the script says WHERE the real program puts each
+   block and which allocation family it uses - choices the specification's verdict must not depend on:
+     bk   0 = wherever the real malloc puts it; k > 0 = at an address of the k-th designated bucket of the
+          detector's hash table, so that blocks of different tests and periods share chains in every order
+     fam  0 = operator new[] / delete[], 1 = malloc / realloc / free
+   Steps: alloc id / free id / realloc old -> new id (arg2) / rfail id (realloc that fails) / expect n / ignore /
+   fail / begin / end (arg = id of the copy the output keeps of a leak failure, 0 = it keeps none) / final. *)
 EXTENDS LeakPlugin, Json
-CONSTANT D
-VARIABLES h, done
-gvars == <<vars, h, done>>
-Step(op, ph, arg) == h' = Append(h, [op |-> op, ph |-> ph, arg |-> arg])
+CONSTANTS D,
+          Buckets,   \* placements to choose from (subset of 0..6)
+          Fams,      \* allocation families to choose from (subset of {0, 1})
+          Keeps      \* whether the output may keep copies of leak failures (subset of BOOLEAN)
+VARIABLES h, done,
+          mal        \* ids of the malloc family (only those can be re-allocated)
+gvars == <<vars, h, done, mal>>
+Step(op, ph, arg, arg2, bk, fam) == h' = Append(h, [op |-> op, ph |-> ph, arg |-> arg, arg2 |-> arg2, bk |-> bk, fam |-> fam])
+Plain(op, ph, arg) == Step(op, ph, arg, 0, 0, 0) /\ UNCHANGED mal
 
-GInit == Init /\ h = <<>> /\ done = 0
+GInit == Init /\ h = <<>> /\ done = 0 /\ mal = {}
 GStep == /\ done = 0 /\ Len(h) < D /\ UNCHANGED done
-         /\ \/ ntests < MaxTests /\ Begin /\ Step("begin", "o", 0)
-            \/ End /\ Step("end", "o", 0)
+         /\ \/ ntests < MaxTests /\ Begin /\ Plain("begin", "o", 0)
+            \/ \E keep \in Keeps, bk \in Buckets :
+                  /\ (keep => nextId <= MaxBlocks) /\ (~keep => bk = CHOOSE b \in Buckets : TRUE)
+                  /\ End(keep) /\ Step("end", "o", IF keep THEN nextId ELSE 0, 0, bk, 0) /\ UNCHANGED mal
             \/ /\ nops < MaxOps
                /\ \E ph \in OpPhases :
-                     \/ nextId <= MaxBlocks /\ AllocOp(ph) /\ Step("alloc", ph, nextId)
-                     \/ \E id \in Ids(blocks) : FreeOp(ph, id) /\ Step("free", ph, id)
-                     \/ \E n \in Expectations : ExpectOp(ph, n) /\ Step("expect", ph, n)
-                     \/ IgnoreOp(ph) /\ Step("ignore", ph, 0)
-                     \/ FailOp(ph) /\ Step("fail", ph, 0)
+                     \/ \E bk \in Buckets, fm \in Fams :
+                           /\ nextId <= MaxBlocks /\ AllocOp(ph) /\ Step("alloc", ph, nextId, 0, bk, fm)
+                           /\ mal' = IF fm = 1 THEN mal \cup {nextId} ELSE mal
+                     \/ \E id \in Ids(blocks) : FreeOp(ph, id) /\ Plain("free", ph, id)
+                     \/ \E id \in Ids(blocks) \cap mal, bk \in Buckets :
+                           /\ nextId <= MaxBlocks /\ ReallocOp(ph, id, TRUE) /\ Step("realloc", ph, id, nextId, bk, 1)
+                           /\ mal' = mal \cup {nextId}
+                     \/ \E id \in Ids(blocks) \cap mal : ReallocOp(ph, id, FALSE) /\ Step("rfail", ph, id, 0, 0, 1) /\ UNCHANGED mal
+                     \/ \E n \in Expectations : ExpectOp(ph, n) /\ Plain("expect", ph, n)
+                     \/ IgnoreOp(ph) /\ Plain("ignore", ph, 0)
+                     \/ FailOp(ph) /\ Plain("fail", ph, 0)
 \* closing: end the open test, ask for the final report, print
-GClose == \/ done = 0 /\ Len(h) >= D /\ cur # 0 /\ End /\ Step("end", "o", 0) /\ UNCHANGED done
-          \/ done = 0 /\ Len(h) >= D /\ cur = 0 /\ Final /\ Step("final", "o", 0) /\ done' = 1
-          \/ done = 1 /\ done' = 2 /\ UNCHANGED <<vars, h>>
+GClose == \/ done = 0 /\ Len(h) >= D /\ cur # 0 /\ End(FALSE) /\ Plain("end", "o", 0) /\ UNCHANGED done
+          \/ done = 0 /\ Len(h) >= D /\ cur = 0 /\ Final /\ Plain("final", "o", 0) /\ done' = 1
+          \/ done = 1 /\ done' = 2 /\ UNCHANGED <<vars, h, mal>>
 GNext == GStep \/ GClose
 GSpec == GInit /\ [][GNext]_gvars
 Dump == done = 2 => PrintT(<<"BEH", ToJson(h)>>)
